@@ -112,6 +112,10 @@ func genValidSpokfile(r *Rng) string {
 	return b.String()
 }
 
+// coInserts are multi-byte sequences a damaged or unusually encoded file may contain.
+var coInserts = [][]byte{[]byte("\u2028"), []byte("\u2029"), []byte("\u0085"), []byte("\u00a0"), {0xEF, 0xBB, 0xBF}, []byte("é"), []byte("😀"), {0x80}, {0xE2, 0x80},
+	[]byte("\u200b"), []byte("\u3000"), []byte("\r"), []byte("\x0b"), []byte("\x0c")}
+
 var coFlipVals = []byte{0x00, 0x80, 0xFF, '"', '{', '}', '(', ')', '#', '\r', '\n', ' ', 'a', 'Z', ':', '=', ',', '-', '>', 0xC3, '\t', '_', '0'}
 
 func (corruptScen) Gen(r *Rng, cfg GenConfig) any {
@@ -128,7 +132,7 @@ func (corruptScen) Gen(r *Rng, cfg GenConfig) any {
 	}
 	for i := 0; i < nf; i++ {
 		f := SFault{Pos: r.Intn(len(base) + 1)}
-		switch r.Intn(8) {
+		switch r.Intn(9) {
 		case 0, 1, 2:
 			f.Kind = "trunc"
 		case 3, 4:
@@ -139,9 +143,28 @@ func (corruptScen) Gen(r *Rng, cfg GenConfig) any {
 			bnd := a + r.Intn(len(other)-a+1)
 			f.Kind, f.Data = "splice", []byte(other[a:bnd])
 		case 6:
-			f.Kind = "dropline"
+			if r.Chance(1, 2) {
+				f.Kind = "dropline"
+			} else {
+				f.Kind = "dupline"
+			}
 		default:
-			f.Kind = "dupline"
+			f.Kind, f.Data = "splice", Pick(r, coInserts)
+			// half of the time close to a quote, where string literals start and end
+			if r.Chance(1, 2) {
+				var qs []int
+				for i := 0; i < len(base); i++ {
+					if base[i] == '"' {
+						qs = append(qs, i)
+					}
+				}
+				if len(qs) > 0 {
+					f.Pos = Pick(r, qs) + r.Intn(4)
+					if f.Pos > len(base) {
+						f.Pos = len(base)
+					}
+				}
+			}
 		}
 		c.Faults = append(c.Faults, f)
 	}
